@@ -237,20 +237,24 @@ func (v ReceiverValidator) validateParamsCombinations(
 	})
 
 	var errMsg string
+	var errCode diagnostics.DiagnosticCode
 
 	switch newParamType {
 	case definitions.PassedInBody:
 		if doesBodyParamAlreadyExists {
 			// Body is a special case, only one body parameter is allowed per route
 			errMsg = "Body parameter is invalid, only one body per route is allowed"
+			errCode = diagnostics.DiagMethodLevelTooManyOfAnnotation
 		} else if doesFormParamAlreadyExists {
 			// Form is an implementation of url encoded string in the body, thus it cannot be used if the body is already in use
 			errMsg = "Body parameter is invalid, using body is not allowed when a form is in use"
+			errCode = diagnostics.DiagAnnotationMutuallyExclusive
 		}
 	case definitions.PassedInForm:
 		if doesBodyParamAlreadyExists {
 			// Form is an implementation of url encoded string in the body, thus it cannot be used if the body is already in use
 			errMsg = "Form parameter is invalid, using form is not allowed when a body is in use"
+			errCode = diagnostics.DiagAnnotationMutuallyExclusive
 		}
 	}
 
@@ -258,7 +262,7 @@ func (v ReceiverValidator) validateParamsCombinations(
 		diag := diagnostics.NewErrorDiagnostic(
 			newParam.FVersion.Path,
 			errMsg,
-			diagnostics.DiagReceiverRetValsInvalidSignature,
+			errCode,
 			newParam.Range,
 		)
 		return &diag
